@@ -28,7 +28,17 @@ RULE = ("cases = corpus + EXHAUSTIVE: after each of 3 preset states over modules
         "add_rule/add_template, template imports, delete MAIN, imports naming a missing module), plus every sequence of length <=5 "
         "over 10 operations from the empty manager (thorough: length <=5 over the core alphabet after the first preset) + N random sequences of 1..7 operations (from the empty "
         "manager or after a preset; 8 module names incl. a never-created one, 3 rules, 2 templates, 8 patterns, all 5 import types, "
-        "re-export lists) + N/10 GRL texts with defmodule blocks run through GRLParser::parse_with_modules. Each case is run on the real "
+        "re-export lists) + N/10 GRL texts with defmodule blocks run through GRLParser::parse_with_modules "
+        "+ a constructive RECONVERGENT-GRAPH family (no randomness): every DAG over 4 and 5 modules and a fixed sample of 400 DAGs over 6 "
+        "modules (5..9 imports) built by accepted imports, followed by every cycle-closing import whose search meets a module reachable "
+        "along two different paths; each (graph, closing import) repeated under 12 (4 modules) / 2 (5, 6 modules) injective renamings over "
+        "7 names incl. MAIN with varied creation / import order - every repetition runs on a fresh manager whose HashSets have their own "
+        "random hash keys, so the iteration order of a module's import set differs - plus once through the GRL front-end (the closing "
+        "module plays MAIN): the import must be refused and the relation stay acyclic on every repetition "
+        "+ a constructive EXPORT-ORDER family: module A (rules r1, s1, templates t1, r1) imported by B in 4 ways; A's export list has 2 "
+        "entries (every ordered pair over Rule/Template/Fact/All x 5 overlapping patterns), 3 entries (every triple of distinct entries "
+        "over 4 types x 3 patterns with >= 2 types, every order) or 4 entries (one per type, every pattern choice, every order). "
+        "Each case is run on the real "
         "ModuleManager and on the Lean model; after every operation (exhaustive cases: after the last two) the result of the operation, "
         "get_imports/get_rules/get_templates/get_exports of every module, get_import_graph, and is_rule_visible / is_template_visible / "
         "get_visible_rules for every (name, module) of the case incl. a never-owned rule and non-existing modules are diffed, and the Spec "
